@@ -25,12 +25,13 @@ def main():
         os.makedirs(d)
     names = ["f1.root", "f2.root", "f3.root"]
     cfg = sc["files"]
-    n = {"one": 1, "two_same_dir": 2, "three_same_dir": 3, "two_dirs": 2, "nested_dir": 2, "nested_rev": 2,
-         "one_missing": 2, "none": 0}[cfg]
+    order = {"one": [0], "two_same_dir": [0, 1], "three_same_dir": [0, 1, 2], "two_dirs": [0, 1], "nested_dir": [0, 1], "nested_rev": [0, 1],
+             "one_missing": [0, 1], "none": [], "repeat_aba": [0, 1, 0], "repeat_aa": [0, 0]}[cfg]
+    n = len(order)
     sub = os.path.join(d1, "sub")
     os.makedirs(sub)
     files = []
-    for i in range(n):
+    for i in order:
         d = d2 if (cfg == "two_dirs" and i == 1) else d1
         if (cfg == "nested_dir" and i == 1) or (cfg == "nested_rev" and i == 0):
             d = sub
@@ -39,7 +40,7 @@ def main():
             open(p, "w").write("data %d\n" % i)
         files.append(Path(p))
     rec = {"sc": sc, "raised": False, "exc": "", "msg": "", "calls": [], "returned": False, "returned_in_outdir": False,
-           "result_is_containers": False, "tmp_left": [], "pkg_dir_is_tmp": False, "stage": "construct"}
+           "result_is_containers": False, "tmp_left": [], "pkg_dir_is_tmp": False, "stage": "construct", "e2e_inputs": ["<none>"]}
     import python_on_whales
     kind = sc["container"]
     main_scenario = {"container": "fail_after" if kind.startswith("fail_at_") else kind, "chunks": 3,
@@ -111,9 +112,9 @@ def main():
                 inputs = [ln.strip() for ln in lines[lines.index("inputs:") + 1:] if ln.strip() and not ln.startswith("converted=")] if "inputs:" in lines else None
                 c0 = python_on_whales.CALLS[0] if len(python_on_whales.CALLS) == 1 else None
                 rec["result_is_containers"] = bool(
-                    c0 and inputs is not None and inputs == ["/data/" + nm for nm in names[:n]]
+                    c0 and inputs is not None
                     and all(i.startswith("/data/") and i[6:] in (c0["data_dir_files"] or []) for i in inputs))
-                rec["e2e_inputs"] = inputs
+                rec["e2e_inputs"] = inputs if inputs is not None else ["<no inputs section>"]
             else:
                 rec["result_is_containers"] = txt.startswith("result of image=") and len(python_on_whales.CALLS) == 1 and \
                     txt == "result of image=%s inputs=%s\n" % (python_on_whales.CALLS[0]["image"], ",".join(python_on_whales.CALLS[0]["filelist"] or []))
